@@ -2035,9 +2035,18 @@ def i_reader_readline(ex, st, g, args, pos):
     islong = s_eq(tok, s_const(LONG_SENTINEL))
     prefix = b_and(more, islong, b_not(part))          # first piece of the long line: position stays
     adv = b_and(more, b_not(prefix))
-    ex.store(st, g, args[0], o.with_(rlpos=ite(adv, nxt, p, W), rlpart=b_and(more, prefix)), pos)
+    # the returned slice is a VIEW of the reader's buffer, valid until the next read (documented contract): it carries
+    # the generation of the read that produced it; gobmc.do_append raises an obligation when a view of an older
+    # generation is extended (append(view, ...)) after a later read on the same reader
+    gen = o.d.get('rlgen', 0)
+    gen1 = (gen + 1) if is_c(gen) else i_bin('+', gen, 1, W, True)
+    ex.store(st, g, args[0], o.with_(rlpos=ite(adv, nxt, p, W), rlpart=b_and(more, prefix), rlgen=gen1), pos)
     err = merge_vals(ex.ctx, st.heap, [(more, NILIFACE), (True, EOF_ERR)])
-    return (s_ite(more, tok, EMPTY), prefix, err)
+    res = s_ite(more, tok, EMPTY)
+    rd = args[0]
+    if isinstance(rd, Ptr) and rd.obj is not None:
+        res = Str(res.b, res.ln, ('rlview', rd.obj, gen1))
+    return (res, prefix, err)
 
 
 def NILSLICE_BYTES():
